@@ -26,7 +26,7 @@ Quick tier (<= 3 min): 9 + 13 targeted, ~3 k context texts, 700 random configura
 instances of <= ~35 k states each run one after the other with 8 TLC workers (a TLC timeout keeps the witnesses
 found so far and is reported in the notes, never a tool error), the contract table.  Thorough: more of everything,
 deeper capacity instances, crashes minimised."""
-import concurrent.futures, hashlib, json, os, random, re, subprocess, time
+import concurrent.futures, hashlib, json, os, random, re, shutil, subprocess, time
 from kv import *
 import kv, flow, cfggen, cfgdesc
 
@@ -163,7 +163,7 @@ def run_batch(batch, wd, name, watchdog_ms, stack_kb):
                 flat = [(j, s) for j in todo for s in j["scripts"]]
                 half = len(flat) // 2
                 for part, tag in ((flat[:half], "a"), (flat[half:], "b")):
-                    jobs = [{"id": j["id"], "cfg": j["cfg"], "scripts": [s]} for j, s in part]
+                    jobs = [dict(j, scripts=[s]) for j, s in part]
                     results += run_batch(jobs, wd, name + tag, watchdog_ms, stack_kb)
                 break
         jx, sx = begun
@@ -175,7 +175,7 @@ def run_batch(batch, wd, name, watchdog_ms, stack_kb):
             if watchdog_ms <= 2000:
                 # the watchdog is wall clock and the machine is shared: a hang counts only if the pair, run alone with a
                 # ten times larger limit, hangs again (a slow step under load, e.g. symbolising a panic backtrace, does not)
-                again = run_batch([{"id": j["id"], "cfg": j["cfg"], "scripts": [s]}], wd, name + "_confirm", watchdog_ms * 10, stack_kb)
+                again = run_batch([dict(j, scripts=[s])], wd, name + "_confirm", watchdog_ms * 10, stack_kb)
                 res = dict(again[0])
                 if res["r"] == "hang":
                     res["msg"] = "step exceeded the %d ms watchdog twice (second run alone: %s)" % (watchdog_ms, res["msg"])
@@ -190,7 +190,7 @@ def run_batch(batch, wd, name, watchdog_ms, stack_kb):
         # continue after the culprit
         rest = []
         if j["scripts"][sx + 1:]:
-            rest.append({"id": j["id"], "cfg": j["cfg"], "scripts": j["scripts"][sx + 1:]})
+            rest.append(dict(j, scripts=j["scripts"][sx + 1:]))
         rest += todo[jx + 1:]
         todo = rest
     return results
@@ -208,19 +208,24 @@ def run_all(jobs, wd, name, watchdog_ms=2000, stack_kb=2048, per_batch=24):
     for f in os.listdir(wd):
         if f.startswith(name + "_b") and (f.endswith(".out") or f.endswith(".hang")):
             os.remove(os.path.join(wd, f))
+        elif f.startswith(name + "_b") and f.endswith(".files"):
+            shutil.rmtree(os.path.join(wd, f), ignore_errors=True)
     return out
 
 
-def run_one(cfg, steps, wd, name="one", watchdog_ms=2000, stack_kb=2048):
-    r = run_batch([{"id": 0, "cfg": cfg, "scripts": [{"id": 0, "cls": "one", "steps": steps}]}], wd, name, watchdog_ms, stack_kb)
+def run_one(cfg, steps, wd, name="one", watchdog_ms=2000, stack_kb=2048, extra=None):
+    """extra: further job keys ("files": [texts], "opts": {"mode": "loop"})"""
+    job = {"id": 0, "cfg": cfg, "scripts": [{"id": 0, "cls": "one", "steps": steps}]}
+    job.update(extra or {})
+    r = run_batch([job], wd, name, watchdog_ms, stack_kb)
     return r[0]
 
 
 # ------------------------------------------------------------------ minimisation
-def minimise_history(cfg, steps, sig, wd, budget=150):
+def minimise_history(cfg, steps, sig, wd, budget=150, extra=None):
     """greedy delta debugging on the step list, keeping the crash signature"""
     def crashes(st):
-        r = run_one(cfg, st, wd, "min")
+        r = run_one(cfg, st, wd, "min", extra=extra)
         return r["r"] not in ("ok", "reject") and _sig_of(r) == sig
     n = [budget]
     cur = list(steps)
@@ -411,6 +416,13 @@ def targeted():
     T.append(("all-codes-features", "(defcfg process-unmapped-keys yes block-unmapped-keys yes)\n(defsrc a b c d)\n"
               "(deflayer l0 (one-shot 50 lsft) (tap-hold 20 20 x y) (tap-dance 20 (x y)) (caps-word 100))\n"
               "(defoverrides (lsft a) (b))\n", sweep))
+    # reported by an independent reader: rpt-any as a chords-v2 action repeats the last action at the chord's virtual
+    # coordinate; after (multi _ lsft) / (multi use-defsrc lsft) that action looks the coordinate up
+    for leaf in ("_", "use-defsrc"):
+        cfg = ("(defcfg process-unmapped-keys yes concurrent-tap-hold yes)\n(defsrc a b c d)\n(deflayer l0 a b (multi %s lsft) d)\n"
+               "(defchordsv2 (a b) rpt-any 30 all-released ())\n" % leaf)
+        T.append(("chv2-rpt-any-after-multi-%s" % ("trans" if leaf == "_" else leaf), cfg,
+                  [["d", C], ["t", 5], ["u", C], ["t", 20], ["d", A], ["d", B], ["t", 50], ["u", A], ["u", B], ["t", 50]]))
     # (KEY_MAX = 767 as an input coordinate indexes past the 767-wide layer row, but no configuration can map it -
     # process-unmapped-keys maps 0..766 and deflocalkeys refuses 767 - and every OS layer filters on MAPPED_KEYS: outside
     # the interface, see the assumption "input codes restricted to the configuration's mapped keys")
@@ -457,14 +469,16 @@ class Acc:
                 c["count"] += 1
                 c["classes"].add(cls)
                 cand = {"cfg": j["cfg"], "steps": steps, "res": {k: r.get(k) for k in ("r", "loc", "msg", "step")},
-                        "label": j.get("label", ""), "cls": cls}
+                        "label": j.get("label", ""), "cls": cls, "extra": {k: j[k] for k in ("files", "opts") if k in j}}
                 if c["first"] is None or len(cand["cfg"]) + 4 * len(steps) < len(c["first"]["cfg"]) + 4 * len(c["first"]["steps"]):
                     c["first"] = cand
 
 
-def mkjob(jid, cfg, scripts, label=""):
-    return {"id": jid, "cfg": cfg, "label": label, "hash": hashlib.md5(cfg.encode()).hexdigest()[:12],
-            "scripts": [{"id": i, "cls": cls, "steps": st} for i, (cls, st) in enumerate(scripts)]}
+def mkjob(jid, cfg, scripts, label="", extra=None):
+    j = {"id": jid, "cfg": cfg, "label": label, "hash": hashlib.md5(cfg.encode()).hexdigest()[:12],
+         "scripts": [{"id": i, "cls": cls, "steps": st} for i, (cls, st) in enumerate(scripts)]}
+    j.update(extra or {})
+    return j
 
 
 def explore(tier, seed, wd, acc, notes):
@@ -575,7 +589,8 @@ def _slug(sig):
 def replay(r, path, wd):
     """./check replay <file>: run the recorded (configuration, history) on the tree under test again"""
     build_harness()
-    out = run_one(r["cfg"], r["script"], wd, "replay", r.get("watchdog_ms", 2000), r.get("stack_kb", 2048))
+    out = run_one(r["cfg"], r["script"], wd, "replay", r.get("watchdog_ms", 2000), r.get("stack_kb", 2048),
+                  extra={k: r[k] for k in ("files", "opts") if k in r})
     print("configuration:\n%s\nhistory: %s" % (r["cfg"].rstrip(), json.dumps(r["script"])[:600]))
     if out["r"] == "reject":
         print("the parser rejects this configuration now: %s" % out.get("msg", ""))
@@ -600,7 +615,9 @@ def run(tier, seed):
     from props import c02_model
     cap = c02_model.capacity_submodel(tier, seed, wd, acc, run_all, mkjob, notes)
     con = c02_model.contracts(tier, seed, wd, acc, run_all, mkjob, notes)
-    nest = c02_model.nest_family(tier, seed, wd, acc, run_all, mkjob, notes, con.pop("tlc_out"))
+    tlc_out = con.pop("tlc_out")
+    nest = c02_model.nest_family(tier, seed, wd, acc, run_all, mkjob, notes, tlc_out)
+    rld = c02_model.reload_family(tier, seed, wd, acc, run_all, mkjob, notes, tlc_out)
     conf = c02_model.repaired_conformance(tier, wd, notes)
     res.states = cap.get("states", 0) + con.get("states", 0) + (conf.get("states") or 0)
     res.transitions = cap.get("generated", 0) + con.get("generated", 0) + (conf.get("generated") or 0)
@@ -613,10 +630,12 @@ def run(tier, seed):
         cfg, steps = f["cfg"], f["steps"]
         if not known or tier == "thorough":
             # (removing text / events cannot move a crash from outside a known input class into it)
-            steps = minimise_history(cfg, steps, sig, wd, 120 if known else 300)
-            cfg = minimise_config(cfg, steps, sig, wd, 150 if known else 400)
+            steps = minimise_history(cfg, steps, sig, wd, 120 if known else 300, extra=f["extra"])
+            if not f["extra"]:      # (a configuration that is also one of the files on disk is not rewritten)
+                cfg = minimise_config(cfg, steps, sig, wd, 150 if known else 400)
         obj = {"property": PID, "kind": "crash", "signature": sig, "cfg": cfg, "script": steps, "result": f["res"],
                "found_in": f["label"], "history_class": f["cls"], "watchdog_ms": 2000, "stack_kb": 2048}
+        obj.update(f["extra"])
         name = _slug(sig) + ("_outside_known_input_class" if kf is not None and not inclass else "")
         if known:
             if sig not in [k["signature"] for k in res.known]:
@@ -657,6 +676,7 @@ def run(tier, seed):
         "contract_table": con,
         "repeat_arm_conformance": conf,
         "chordsv2_nested_position_family": nest,
+        "reload_request_family": rld,
         "crash_signatures": crash_report,
         "samples": ([{"crash": c["signature"], "cfg": c["cfg"][:600], "history": c["history"][:20]} for c in crash_report[:4]] +
                     [{"random_config": True, "note": "see generator stats"}])[:8],
